@@ -19,7 +19,7 @@
  "name": "inode_alloc_stats2",
  "props": ["C09"],
  "level": "U",
- "tier": "wip",
+ "tier": "obs",
  "harness": "h_inode_alloc_stats2",
  "enforce": ["ext2fs_inode_alloc_stats2"],
  "functions": ["lib/ext2fs/alloc_stats.c:ext2fs_inode_alloc_stats2"],
